@@ -19,7 +19,7 @@ The semantic property (of the library's observable behaviour) you must break:
 
 Task: produce up to THREE different, independent changes to the library source (files under {wt}/kappadata only - do not edit tests), each of which
   (a) breaks the property above for some inputs,
-  (b) still imports fine and still passes the existing test suite: `cd {wt} && OMP_NUM_THREADS=2 /venv/bin/python -m pytest -q -p no:cacheprovider --timeout=900 tests_unit tests_integration test_unit_long` (keep OMP_NUM_THREADS=2: the machine is shared) must not have any test fail that passes without your change (some tests already fail on the unchanged tree - those do not matter; compare against a run on the unchanged tree, e.g. via `git stash`),
+  (b) still imports fine and still passes the existing test suite: `cd {wt} && OMP_NUM_THREADS=2 /venv/bin/python -m pytest -q -p no:cacheprovider --timeout=900 tests_unit tests_integration test_unit_long` (keep OMP_NUM_THREADS=2: the machine is shared) must not have any test fail that passes without your change (some tests already fail on the unchanged tree - those do not matter; compare against a run on the unchanged tree; do NOT use `git stash` - the stash is shared with other worktrees of this repository - save your change with `git diff > /tmp/<yourfile>.diff`, restore with `git checkout -- kappadata` and re-apply with `git apply`),
   (c) is realistic - looks like a plausible refactoring slip, off-by-one, wrong variable, lost forwarding, wrong default, stale state, ordering mistake - not sabotage such as `if x == 1234`,
   (d) needs something SPECIFIC to manifest: a particular multi-step sequence of operations, an unusual but legal input or configuration, a boundary value, a particular combination of two options, or two cooperating code sites that each look fine alone. Changes that ordinary use would expose at once are not wanted. Prefer changes that differ in kind from one another (different code site, different aspect of the property).
 
